@@ -34,7 +34,7 @@ pub fn gen_state(rng: &mut Rng, m128: bool) -> SnapState {
     s.cpu.no_sample = false;
     s.cpu.pc = IDLE;
     // stack somewhere in bank 2 or 5, away from the stub / table
-    s.cpu.sp = *rng.pick(&[0x9000u16, 0xA000, 0x6000, 0x7FFE, 0xB000]) + (rng.u16() & 0xFE);
+    s.cpu.sp = *rng.pick(&[0x9000u16, 0xA000, 0x6000, 0x7F00, 0xB000]) + (rng.u16() & 0xFE); // never overlaps the stub at 0x8000
     s.port_7ffd = if m128 { rng.u8() & 0x3F } else { 0 };
     s.border = rng.u8() & 7;
     rng.fill(&mut s.ay_regs);
@@ -452,7 +452,17 @@ impl Property for C14 {
                     let mem: Vec<u8> = e.verif_ram_page(page)[..6912].to_vec();
                     let px = &e.screen_buffer().px;
                     if &screen::decode(&mem, false) != px && &screen::decode(&mem, true) != px {
-                        return Err(Fail::new("C14.display", &format!("format={},machine={},shadow={}", ["sna", "szx"][fmt], machine, shadow as u8), "the picture after load is not the decode of the displayed screen bank".into()));
+                        let a = screen::decode(&mem, false);
+                        let b = screen::decode(&mem, true);
+                        let da = a.iter().zip(px.iter()).filter(|(x, y)| x != y).count();
+                        let db = b.iter().zip(px.iter()).filter(|(x, y)| x != y).count();
+                        let r = if da <= db { &a } else { &b };
+                        let i = r.iter().zip(px.iter()).position(|(x, y)| x != y).unwrap_or(0);
+                        return Err(Fail::new(
+                            "C14.display",
+                            &format!("format={},machine={},shadow={}", ["sna", "szx"][fmt], machine, shadow as u8),
+                            format!("the picture after load is not the decode of the displayed screen bank: {} / {} wrong pixels against the two flash phases, first at ({},{})", da, db, i % 256, i / 256),
+                        ));
                     }
                     ctx.probe("display_checked");
                 }
